@@ -28,6 +28,8 @@ CHECKS = {
          "the matrix part enumerates a finite catalog completely in both tiers; the random part explores", "only stores the property promises are decided", "4 C03"),
  "C08": ("exploration", "algebra histories", "runtime monitoring: sequential model-based histories on one RuleBuilder; after every operation the sort-model trace (version tags), result map and IsExist are compared with a map model",
          "exploration over operation histories (full / incremental / removal / failing texts)", "stored description is read through the exported Kc field because no public accessor exists", "4 C08"),
+ "C18": ("exploration", "E1 generator + reference interpreter", "runtime monitoring: sequenced observer events of generated conc blocks (exactly-once, join before the next statement with laggard holds, visibility of assignments, error propagation, no late events)",
+         "exploration over member mixes, failing subsets and GOMAXPROCS", "members touch disjoint state; holds only provoke", "4 C18"),
  "C15": ("exploration", "E2 trace monitor", "runtime monitoring: rules sharing local names, readers-before-write must fault and writers must get their own value back, in every model, repeated calls and concurrent duplicates",
          "exploration", "a leak must change a returned value or let a reader succeed to be seen", "4 C15"),
 }
